@@ -315,7 +315,7 @@ Proof.
   intros c k it tr Hk Hw Htr.
   assert (Hw' : wf_desc (w_d0 it) (w_conts it) = true /\
                 is_some (w_name it) && opt_all wf_name (w_name it) && opt_all wf_ann (w_ann it) = true).
-  { unfold wf_item, wf_item_gen in Hw. apply andb_true_iff in Hw. destruct Hk; subst; exact Hw. }
+  { unfold wf_item in Hw. apply andb_true_iff in Hw. destruct Hk; subst; exact Hw. }
   destruct Hw' as [Hd Hna].
   apply andb_true_iff in Hna; destruct Hna as [Hna Han].
   apply andb_true_iff in Hna; destruct Hna as [Hsome Hnm].
@@ -368,47 +368,35 @@ Proof.
   simpl map. f_equal. apply IH. intros it' tr' Hin Ht'. apply H; auto. right; exact Hin.
 Qed.
 
-(* ---- Attributes (with the loop-carried `annotation`) *)
-Lemma parse_attrs_ok : forall c its tr prev, (tr = [] \/ tr = [[]]) ->
-  forallb (wf_item KAttrs) its = true -> attr_gapfree c (is_some prev) its = true ->
-  parse_attrs c prev (raws KAttrs tr its) = map (expect_item c KAttrs false 0) its.
+(* ---- Attributes *)
+Lemma parse_attr_ok : forall c it tr, wf_item KAttrs it = true -> (tr = [] \/ tr = [[]]) ->
+  parse_attr c (raw KAttrs it ++ tr) = Some (expect_item c KAttrs false 0 it).
 Proof.
-  intros c its tr. induction its as [|it r IH]; intros prev Htr Hw Hg; [reflexivity|].
-  simpl in Hw. apply andb_true_iff in Hw. destruct Hw as [Hw Hwr].
-  rewrite raws_cons.
-  assert (Htr' := tr_sub tr r Htr). set (tr' := match r with [] => tr | _ => [] end) in *.
-  unfold wf_item, wf_item_gen in Hw. apply andb_true_iff in Hw. destruct Hw as [Hd Hna].
+  intros c it tr Hw Htr.
+  unfold wf_item in Hw. apply andb_true_iff in Hw. destruct Hw as [Hd Hna].
   apply andb_true_iff in Hna; destruct Hna as [Hna Han].
   apply andb_true_iff in Hna; destruct Hna as [Hsome Hnm].
   destruct it as [on oa d0 conts]. simpl in Hd, Hsome, Hnm, Han.
   destruct on as [n|]; [|discriminate]. simpl in Hnm.
   destruct (wf_name_facts n Hnm) as [Hne [Hcol [Hsp Hns]]].
   unfold raw, first_line. simpl head_of. simpl w_d0. simpl w_conts.
-  simpl in Hg.
+  try rewrite <- app_comm_cons. unfold parse_attr.
   destruct oa as [a|].
   - simpl in Han. assert (Ha := Han). unfold wf_ann in Ha.
     apply andb_true_iff in Ha; destruct Ha as [Ha _].
     apply andb_true_iff in Ha; destruct Ha as [Ha _].
     apply andb_true_iff in Ha; destruct Ha as [Ha _].
     apply andb_true_iff in Ha; destruct Ha as [_ Hacol].
-    simpl parse_attrs.
     rewrite split_first_app.
     2:{ rewrite contains_char_app, Hcol. apply contains_colon_annpart. apply contains_colon_not. exact Hacol. }
     rewrite split_first_app by exact Hsp.
     rewrite clean_annotation_ok by exact Han.
-    rewrite desc_of_dpart by auto.
-    simpl map. f_equal. apply (IH (Some a)); auto.
-  - rewrite app_nil_r. simpl parse_attrs.
+    rewrite desc_of_dpart by auto. reflexivity.
+  - rewrite app_nil_r.
     rewrite split_first_app by exact Hcol.
     rewrite split_first_none by exact Hsp.
     rewrite desc_of_dpart by auto.
-    simpl map. unfold expect_item at 1. simpl w_name. simpl w_ann. simpl oapp. simpl orelse.
-    simpl oapp in Hg.
-    destruct (lookup_attr c n) as [oa|] eqn:El.
-    + f_equal. apply (IH oa); auto.
-    + apply andb_true_iff in Hg. destruct Hg as [Hseen Hg].
-      destruct prev as [p|]; [discriminate|].
-      f_equal. apply (IH None); auto.
+    simpl. destruct (lookup_attr c n); reflexivity.
 Qed.
 
 (* ---- Functions / Classes *)
@@ -421,7 +409,7 @@ Proof.
   intros c k it tr Hk Hw Htr.
   assert (Hw' : wf_desc (w_d0 it) (w_conts it) = true /\
                 is_some (w_name it) && opt_all wf_fname (w_name it) && opt_all wf_sigargs (w_ann it) = true).
-  { unfold wf_item, wf_item_gen in Hw. apply andb_true_iff in Hw. destruct Hk; subst; exact Hw. }
+  { unfold wf_item in Hw. apply andb_true_iff in Hw. destruct Hk; subst; exact Hw. }
   destruct Hw' as [Hd Hna].
   apply andb_true_iff in Hna; destruct Hna as [Hna Han].
   apply andb_true_iff in Hna; destruct Hna as [Hsome Hnm].
@@ -453,7 +441,7 @@ Lemma parse_module_ok : forall c it tr, wf_item KModules it = true -> (tr = [] \
   parse_module (raw KModules it ++ tr) = Some (expect_item c KModules false 0 it).
 Proof.
   intros c it tr Hw Htr.
-  unfold wf_item, wf_item_gen in Hw. apply andb_true_iff in Hw. destruct Hw as [Hd Hna].
+  unfold wf_item in Hw. apply andb_true_iff in Hw. destruct Hw as [Hd Hna].
   apply andb_true_iff in Hna; destruct Hna as [Hna Han].
   apply andb_true_iff in Hna; destruct Hna as [Hsome Hnm].
   destruct it as [on oa d0 conts]. simpl in *.
@@ -473,7 +461,7 @@ Proof.
   intros c k it tr Hk Hw Htr.
   assert (Hw' : wf_desc (w_d0 it) (w_conts it) = true /\
                 negb (is_some (w_name it)) && is_some (w_ann it) && opt_all wf_exc (w_ann it) = true).
-  { unfold wf_item, wf_item_gen in Hw. apply andb_true_iff in Hw. destruct Hk; subst; exact Hw. }
+  { unfold wf_item in Hw. apply andb_true_iff in Hw. destruct Hk; subst; exact Hw. }
   destruct Hw' as [Hd Hna].
   apply andb_true_iff in Hna; destruct Hna as [Hna Han].
   apply andb_true_iff in Hna; destruct Hna as [Hnone Hsome].
@@ -512,10 +500,7 @@ Proof.
     simpl. rewrite (word_not_space x Hx). reflexivity.
 Qed.
 
-Lemma has_parencolon_dpart : forall d0, has_parencolon (dpart d0) = has_parencolon d0.
-Proof. destruct d0; reflexivity. Qed.
-
-Lemma re_nad_name_type : forall n a dp, wf_word n = true -> a <> [] -> has_parencolon dp = false ->
+Lemma re_nad_name_type : forall n a dp, wf_word n = true -> a <> [] -> has_parencolon a = false ->
   re_name_annotation_description (n ++ sp :: lparen :: a ++ rparen :: colon :: dp) = (Some n, Some a, lstrip dp).
 Proof.
   intros n a dp Hn Ha Hdp. destruct (wf_word_facts n Hn) as [Hne [Hw _]].
@@ -524,7 +509,7 @@ Proof.
   rewrite lstrip_sp_cons.
   change (lstrip (lparen :: a ++ rparen :: colon :: dp)) with (lparen :: a ++ rparen :: colon :: dp).
   unfold lparen, rparen, colon.
-  rewrite (lpc_app a dp Ha Hdp).
+  rewrite (fpc_app a dp Ha Hdp).
   destruct n; [congruence|reflexivity].
 Qed.
 
@@ -539,7 +524,7 @@ Proof.
   destruct n; [congruence|reflexivity].
 Qed.
 
-Lemma re_nad_type : forall a dp, a <> [] -> has_parencolon dp = false ->
+Lemma re_nad_type : forall a dp, a <> [] -> has_parencolon a = false ->
   re_name_annotation_description (lparen :: a ++ rparen :: colon :: dp) = (None, Some a, lstrip dp).
 Proof.
   intros a dp Ha Hdp.
@@ -548,7 +533,7 @@ Proof.
   cbv beta iota zeta.
   change (lstrip (lparen :: a ++ rparen :: colon :: dp)) with (lparen :: a ++ rparen :: colon :: dp).
   unfold lparen, rparen, colon. cbv beta iota zeta.
-  rewrite (lpc_app a dp Ha Hdp). reflexivity.
+  rewrite (fpc_app a dp Ha Hdp). reflexivity.
 Qed.
 
 Definition rkind (k : kind) : Prop := k = KReturns \/ k = KYields \/ k = KReceives.
@@ -556,19 +541,22 @@ Definition rkind (k : kind) : Prop := k = KReturns \/ k = KYields \/ k = KReceiv
 Lemma wf_item_rkind : forall k it, rkind k -> wf_item k it = true ->
   wf_desc (w_d0 it) (w_conts it) = true /\
   opt_all wf_word (w_name it) = true /\
-  opt_all (fun a => nonempty a && all_printable a) (w_ann it) = true /\
-  (if is_some (w_ann it) then negb (has_parencolon (w_d0 it)) else true) = true /\
+  opt_all wf_rann (w_ann it) = true /\
   (if is_some (w_name it) || is_some (w_ann it) then true else wf_desc_only (w_d0 it)) = true.
 Proof.
-  intros k it Hk Hw. unfold wf_item, wf_item_gen in Hw. apply andb_true_iff in Hw. destruct Hw as [Hd Hr].
-  assert (Hr' : opt_all wf_word (w_name it) && opt_all (fun a => nonempty a && all_printable a) (w_ann it)
-      && (if is_some (w_ann it) then negb (has_parencolon (w_d0 it)) else true)
+  intros k it Hk Hw. unfold wf_item in Hw. apply andb_true_iff in Hw. destruct Hw as [Hd Hr].
+  assert (Hr' : opt_all wf_word (w_name it) && opt_all wf_rann (w_ann it)
       && (if is_some (w_name it) || is_some (w_ann it) then true else wf_desc_only (w_d0 it)) = true)
     by (destruct Hk as [->|[->| ->]]; exact Hr).
   apply andb_true_iff in Hr'; destruct Hr' as [Hr' H4].
-  apply andb_true_iff in Hr'; destruct Hr' as [Hr' H3].
   apply andb_true_iff in Hr'; destruct Hr' as [H1 H2].
   auto.
+Qed.
+
+Lemma wf_rann_facts : forall a, wf_rann a = true -> a <> [] /\ has_parencolon a = false /\ nonempty a = true.
+Proof.
+  intros a H. unfold wf_rann in H. apply andb_true_iff in H. destruct H as [H Hp]. apply andb_true_iff in H. destruct H as [Hn _].
+  apply negb_true_iff in Hp. repeat split; auto. destruct a; [discriminate|discriminate].
 Qed.
 
 Lemma head_of_rkind : forall k it, rkind k ->
@@ -587,25 +575,23 @@ Lemma get_nad_ok : forall k it tr, rkind k -> wf_item k it = true -> (tr = [] \/
   get_nad true (raw k it ++ tr) = Some (w_name it, w_ann it, join_nl (w_d0 it :: w_conts it)).
 Proof.
   intros k it tr Hk Hw Htr.
-  destruct (wf_item_rkind k it Hk Hw) as [Hd [Hn [Ha [Hpc Hdo]]]].
-  destruct it as [on oa d0 conts]. simpl in Hd, Hn, Ha, Hpc, Hdo.
+  destruct (wf_item_rkind k it Hk Hw) as [Hd [Hn [Ha Hdo]]].
+  destruct it as [on oa d0 conts]. simpl in Hd, Hn, Ha, Hdo.
   unfold raw, first_line. rewrite (head_of_rkind k _ Hk). simpl w_name. simpl w_ann. simpl w_d0. simpl w_conts.
-  destruct on as [n|]; destruct oa as [a|]; simpl in Hn, Ha, Hpc, Hdo.
-  - apply andb_true_iff in Ha. destruct Ha as [Hane _]. apply negb_true_iff in Hpc.
+  destruct on as [n|]; destruct oa as [a|]; simpl in Hn, Ha, Hdo.
+  - destruct (wf_rann_facts a Ha) as [Hane [Hpc _]].
     replace ((n ++ sp :: lparen :: a ++ [rparen]) ++ colon :: dpart d0) with (n ++ sp :: lparen :: a ++ rparen :: colon :: dpart d0)
       by (rewrite <- app_assoc; simpl; rewrite <- app_assoc; reflexivity).
     rewrite <- app_comm_cons. unfold get_nad.
-    rewrite re_nad_name_type; auto using nonempty_ne.
-    2:{ rewrite has_parencolon_dpart. exact Hpc. }
+    rewrite re_nad_name_type; auto.
     rewrite desc_of_lstrip_dpart by auto. reflexivity.
   - rewrite <- app_comm_cons. unfold get_nad. rewrite re_nad_name by auto.
     rewrite desc_of_lstrip_dpart by auto. reflexivity.
-  - apply andb_true_iff in Ha. destruct Ha as [Hane _]. apply negb_true_iff in Hpc.
+  - destruct (wf_rann_facts a Ha) as [Hane [Hpc _]].
     replace ((lparen :: a ++ [rparen]) ++ colon :: dpart d0) with (lparen :: a ++ rparen :: colon :: dpart d0)
       by (simpl; rewrite <- app_assoc; reflexivity).
     rewrite <- app_comm_cons. unfold get_nad.
-    rewrite re_nad_type; auto using nonempty_ne.
-    2:{ rewrite has_parencolon_dpart. exact Hpc. }
+    rewrite re_nad_type; auto.
     rewrite desc_of_lstrip_dpart by auto. reflexivity.
   - unfold wf_desc_only in Hdo. apply andb_true_iff in Hdo. destruct Hdo as [Hne Hdo].
     rewrite <- app_comm_cons. unfold get_nad.
@@ -640,7 +626,7 @@ Proof.
   destruct it as [on oa d0 conts]. simpl w_name. simpl w_ann. simpl w_d0. simpl w_conts. simpl in Ha.
   assert (E : (if truthy oa then oa else annotation_from_parent c (gen_index_of k) multiple index)
               = orelse oa (annotation_from_parent c (gen_index_of k) multiple index)).
-  { destruct oa as [a|]; [|reflexivity]. simpl in Ha. apply andb_true_iff in Ha. destruct Ha as [Hane _].
+  { destruct oa as [a|]; [|reflexivity]. simpl in Ha. destruct (wf_rann_facts a Ha) as [_ [_ Hane]].
     rewrite (truthy_ann a Hane). reflexivity. }
   rewrite E.
   destruct Hk as [->|[->| ->]]; reflexivity.
@@ -668,8 +654,8 @@ Proof. reflexivity. Qed.
 Lemma wf_item_ok : forall k it, wf_item k it = true -> item_ok k it.
 Proof.
   intros k it Hw. split.
-  2:{ unfold wf_item, wf_item_gen in Hw. apply andb_true_iff in Hw. destruct Hw as [Hd _]. eapply wf_desc_conts; eauto. }
-  assert (Hw0 := Hw). unfold wf_item, wf_item_gen in Hw. apply andb_true_iff in Hw. destruct Hw as [Hd Hr].
+  2:{ unfold wf_item in Hw. apply andb_true_iff in Hw. destruct Hw as [Hd _]. eapply wf_desc_conts; eauto. }
+  assert (Hw0 := Hw). unfold wf_item in Hw. apply andb_true_iff in Hw. destruct Hw as [Hd Hr].
   destruct (wf_desc_d0 _ _ Hd) as [Hp0 Hf0].
   destruct it as [on oa d0 conts]. simpl in Hd, Hp0, Hf0.
   unfold first_line.
@@ -713,21 +699,21 @@ Proof.
     destruct on as [n|]; [|discriminate]. simpl in Hn. destruct (wf_name_facts n Hn) as [_ [_ [_ Hns]]].
     simpl. apply nsp_head_app. exact Hns.
   - (* KReturns *)
-    destruct (wf_item_rkind KReturns _ (or_introl eq_refl) Hw0) as [_ [Hn [Ha [_ Hdo]]]]. simpl in Hn, Ha, Hdo.
+    destruct (wf_item_rkind KReturns _ (or_introl eq_refl) Hw0) as [_ [Hn [Ha Hdo]]]. simpl in Hn, Ha, Hdo.
     destruct on as [n|]; destruct oa as [a|]; simpl in *.
     + destruct (wf_word_facts n Hn) as [_ [_ Hns]]. apply nsp_head_app. apply nsp_head_app. exact Hns.
     + destruct (wf_word_facts n Hn) as [_ [_ Hns]]. apply nsp_head_app. exact Hns.
     + reflexivity.
     + unfold wf_desc_only in Hdo. apply andb_true_iff in Hdo. destruct Hdo as [Hne _]. apply nsp_head_of; auto.
   - (* KYields *)
-    destruct (wf_item_rkind KYields _ (or_intror (or_introl eq_refl)) Hw0) as [_ [Hn [Ha [_ Hdo]]]]. simpl in Hn, Ha, Hdo.
+    destruct (wf_item_rkind KYields _ (or_intror (or_introl eq_refl)) Hw0) as [_ [Hn [Ha Hdo]]]. simpl in Hn, Ha, Hdo.
     destruct on as [n|]; destruct oa as [a|]; simpl in *.
     + destruct (wf_word_facts n Hn) as [_ [_ Hns]]. apply nsp_head_app. apply nsp_head_app. exact Hns.
     + destruct (wf_word_facts n Hn) as [_ [_ Hns]]. apply nsp_head_app. exact Hns.
     + reflexivity.
     + unfold wf_desc_only in Hdo. apply andb_true_iff in Hdo. destruct Hdo as [Hne _]. apply nsp_head_of; auto.
   - (* KReceives *)
-    destruct (wf_item_rkind KReceives _ (or_intror (or_intror eq_refl)) Hw0) as [_ [Hn [Ha [_ Hdo]]]]. simpl in Hn, Ha, Hdo.
+    destruct (wf_item_rkind KReceives _ (or_intror (or_intror eq_refl)) Hw0) as [_ [Hn [Ha Hdo]]]. simpl in Hn, Ha, Hdo.
     destruct on as [n|]; destruct oa as [a|]; simpl in *.
     + destruct (wf_word_facts n Hn) as [_ [_ Hns]]. apply nsp_head_app. apply nsp_head_app. exact Hns.
     + destruct (wf_word_facts n Hn) as [_ [_ Hns]]. apply nsp_head_app. exact Hns.
@@ -762,13 +748,12 @@ Proof. intros f its it H Hin. rewrite forallb_forall in H. auto. Qed.
 
 Lemma read_section_ok : forall c k ind it r tail tr n, 1 <= ind ->
   forallb (wf_item k) (it :: r) = true ->
-  (k = KAttrs -> attr_gapfree c false (it :: r) = true) ->
   tail_ok tail tr n ->
   read_section default_opts c k (flat_map (item_lines ind k) (it :: r) ++ tail) =
   RS (BItems (expect_items c k (negb (List.length (it :: r) <=? 1)) 0 (it :: r)))
      (List.length (flat_map (item_lines ind k) (it :: r)) + n).
 Proof.
-  intros c k ind it r tail tr n Hi Hw Hg Ht.
+  intros c k ind it r tail tr n Hi Hw Ht.
   assert (Hok := wf_items_ok k _ Hw).
   assert (Htr := tail_tr _ _ _ Ht).
   assert (Hrb := read_block_items_ok ind k it r tail tr n Hi Hok Ht).
@@ -793,7 +778,7 @@ Proof.
   - (* KAttrs *)
     unfold read_section, items_reader. rewrite Hrb. f_equal. f_equal.
     rewrite expect_items_map by (unfold plain_kind; tauto).
-    apply (parse_attrs_ok c (it :: r) tr None); auto.
+    apply filter_map_raws; auto. intros it' tr' Hin Ht'. apply parse_attr_ok; auto. eapply forallb_in; eauto.
   - (* KFuncs *)
     unfold read_section, items_reader. rewrite Hrb. f_equal. f_equal.
     rewrite expect_items_map by (unfold plain_kind; tauto).
@@ -1094,7 +1079,6 @@ Proof.
   - apply andb_true_iff in H; destruct H as [H _].
     apply andb_true_iff in H; destruct H as [H _].
     apply andb_true_iff in H; destruct H as [H _].
-    apply andb_true_iff in H; destruct H as [H _].
     apply andb_true_iff in H; destruct H as [Hh _].
     eexists. eexists. split; [reflexivity|]. apply header_line_head. exact Hh.
   - apply andb_true_iff in H; destruct H as [H _].
@@ -1173,11 +1157,11 @@ Proof.
   - split.
     + destruct f; [simpl in Hf; lia|]. reflexivity.
     + intros tl _ [].
-  - unfold wf_secs, wf_secs_gen in Hwf. fold wf_sec in Hwf. apply andb_true_iff in Hwf. destruct Hwf as [Hall Hadj].
+  - unfold wf_secs in Hwf. apply andb_true_iff in Hwf. destruct Hwf as [Hall Hadj].
     simpl in Hall. apply andb_true_iff in Hall. destruct Hall as [Hs Hr].
     assert (Hadj_r : no_adjacent_text r = true).
     { destruct r as [|s2 r']; [reflexivity|]. simpl in Hadj. apply andb_true_iff in Hadj. destruct Hadj as [_ H]. exact H. }
-    assert (Hwf_r : wf_secs c r = true) by (unfold wf_secs, wf_secs_gen; fold wf_sec; rewrite Hr, Hadj_r; reflexivity).
+    assert (Hwf_r : wf_secs c r = true) by (unfold wf_secs; rewrite Hr, Hadj_r; reflexivity).
     specialize (IH Hwf_r).
     destruct (tail_of_ok c ind r Hr) as [tr [n [Htail Hn]]].
     rewrite render_google_tail in Hf |- *.
@@ -1208,7 +1192,6 @@ Proof.
         rewrite (IHb tl0 Hs Hnt). reflexivity.
     + (* a section of items *)
       simpl in Hs.
-      apply andb_true_iff in Hs; destruct Hs as [Hs Hgap].
       apply andb_true_iff in Hs; destruct Hs as [Hs Hitems].
       apply andb_true_iff in Hs; destruct Hs as [Hs Hne].
       apply andb_true_iff in Hs; destruct Hs as [Hs Hkind].
@@ -1219,8 +1202,7 @@ Proof.
       destruct (header_line_head h t Hh) as [_ Hfence].
       assert (Hre := re_admonition_header h t Hh Ht).
       assert (Hok := wf_items_ok k _ Hitems).
-      assert (Hgap' : k = KAttrs -> attr_gapfree c false (it :: its') = true) by (intros ->; exact Hgap).
-      assert (Hrs := read_section_ok c k ind it its' (tail_of ind r) tr n Hi Hitems Hgap' Htail).
+      assert (Hrs := read_section_ok c k ind it its' (tail_of ind r) tr n Hi Hitems Htail).
       set (X := flat_map (item_lines ind k) (it :: its')) in *.
       change (render_sec ind (WItems k h t (it :: its'))) with (header_line h t :: X) in *.
       destruct (after_block ind X r n Hn) as [Hskip Hpb].
@@ -1300,7 +1282,7 @@ Qed.
 
 (* no content crosses a section boundary: section i of the parsed document is what section i parses to on its own *)
 Lemma wf_single : forall c s, wf_sec c s = true -> wf_secs c [s] = true.
-Proof. intros c s H. unfold wf_secs, wf_secs_gen. fold wf_sec. simpl. rewrite H. reflexivity. Qed.
+Proof. intros c s H. unfold wf_secs. simpl. rewrite H. reflexivity. Qed.
 
 Theorem google_no_leak : forall c ind secs i s, 1 <= ind -> wf_secs c secs = true -> nth_error secs i = Some s ->
   exists parsed,
@@ -1312,7 +1294,7 @@ Proof.
   exists (expect_google c secs). split; [apply google_roundtrip; auto|]. split.
   - unfold expect_google. rewrite nth_error_map. rewrite Hn. reflexivity.
   - assert (Hs : wf_sec c s = true).
-    { unfold wf_secs, wf_secs_gen in Hwf. fold wf_sec in Hwf. apply andb_true_iff in Hwf. destruct Hwf as [Hall _].
+    { unfold wf_secs in Hwf. apply andb_true_iff in Hwf. destruct Hwf as [Hall _].
       rewrite forallb_forall in Hall. apply Hall. eapply nth_error_In; eauto. }
     apply (google_roundtrip c ind [s] Hi (wf_single c s Hs)).
 Qed.
@@ -1369,21 +1351,10 @@ Proof.
     intros i it Hn. apply (G 0 i it Hn).
 Qed.
 
-(* ---- the two known gaps: witnesses that are well-formed in every other respect *)
+(* ---- the witnesses of the repaired findings C13-F1 and C13-F2 are now well-formed and round-trip *)
 Definition f1_witness : list wsec :=
   [WText [s_of "Summary."];
    WItems KReturns (s_of "Returns") None [mkW (Some (s_of "x")) (Some (s_of "int")) (s_of "see f(a): b") []]].
-
-Lemma google_roundtrip_refuted_F1 :
-  wf_secs_gen false true no_parent f1_witness = true /\
-  parse_google default_opts no_parent (render_google 4 f1_witness) =
-    POk [GText (s_of "Summary.");
-         GItems KReturns None [mkItem (Some (s_of "x")) (Some (s_of "int): see f(a")) (s_of "b") None]] /\
-  parse_google default_opts no_parent (render_google 4 f1_witness) <> POk (expect_google no_parent f1_witness).
-Proof.
-  split; [vm_compute; reflexivity|]. split; [vm_compute; reflexivity|].
-  intro H. vm_compute in H. discriminate.
-Qed.
 
 Definition f2_ctx : pctx := mkCtx None (Some []) RNone.
 Definition f2_witness : list wsec :=
@@ -1391,17 +1362,18 @@ Definition f2_witness : list wsec :=
    WItems KAttrs (s_of "Attributes") None
      [mkW (Some (s_of "a")) (Some (s_of "int")) (s_of "A.") []; mkW (Some (s_of "b")) None (s_of "B.") []]].
 
-Lemma google_roundtrip_refuted_F2 :
-  wf_secs_gen true false f2_ctx f2_witness = true /\
+Example former_gaps_wf : wf_secs no_parent f1_witness = true /\ wf_secs f2_ctx f2_witness = true.
+Proof. split; vm_compute; reflexivity. Qed.
+
+Lemma google_former_gaps_roundtrip :
+  parse_google default_opts no_parent (render_google 4 f1_witness) =
+    POk [GText (s_of "Summary.");
+         GItems KReturns None [mkItem (Some (s_of "x")) (Some (s_of "int")) (s_of "see f(a): b") None]] /\
   parse_google default_opts f2_ctx (render_google 4 f2_witness) =
     POk [GText (s_of "Summary.");
          GItems KAttrs None [mkItem (Some (s_of "a")) (Some (s_of "int")) (s_of "A.") None;
-                             mkItem (Some (s_of "b")) (Some (s_of "int")) (s_of "B.") None]] /\
-  parse_google default_opts f2_ctx (render_google 4 f2_witness) <> POk (expect_google f2_ctx f2_witness).
-Proof.
-  split; [vm_compute; reflexivity|]. split; [vm_compute; reflexivity|].
-  intro H. vm_compute in H. discriminate.
-Qed.
+                             mkItem (Some (s_of "b")) None (s_of "B.") None]].
+Proof. split; vm_compute; reflexivity. Qed.
 
 (* ---- the hypotheses are satisfiable: a document with every construct the theorem covers *)
 Definition sample_ctx : pctx :=
